@@ -4,7 +4,8 @@
 use vstd::prelude::*;
 use vstd::std_specs::core::IndexSpecImpl;
 use vstd::std_specs::ops::*;
-use std::collections::{BTreeMap, VecDeque};
+use std::collections::{BTreeMap, BTreeSet, VecDeque};
+use std::cmp::Ordering;
 use std::ops::{Index, Mul};
 verus! {
 // =====================================================================================================
@@ -50,6 +51,20 @@ impl FreeWord {
     #[verifier::external_body]
     pub fn clone(&self) -> (r: Self) ensures r@ == self@ { unimplemented!() }
 }
+// FreeWord is ordered (BTreeSet<FreeWord>); the order itself plays no role in this unit
+impl PartialEq for FreeWord { #[verifier::external_body] fn eq(&self, other: &Self) -> bool { unimplemented!() } }
+impl Eq for FreeWord {}
+impl PartialOrd for FreeWord { #[verifier::external_body] fn partial_cmp(&self, other: &Self) -> Option<Ordering> { unimplemented!() } }
+impl Ord for FreeWord { #[verifier::external_body] fn cmp(&self, other: &Self) -> Ordering { unimplemented!() } }
+pub open spec fn within(s: Seq<isize>, b: int) -> bool { forall|k: int| 0 <= k < s.len() ==> -b <= #[trigger] s[k] <= b }
+pub open spec fn has_view(s: Set<FreeWord>, v: Seq<isize>) -> bool { exists|u: FreeWord| #[trigger] s.contains(u) && u@ == v }
+//@@ import free_words :: relator_permutations
+#[verifier::external_body]
+pub fn relator_permutations(fw: &FreeWord) -> (result: BTreeSet<FreeWord>)
+    ensures
+        has_view(result@, fw@),
+        forall|u: FreeWord, b: int| #![trigger result@.contains(u), within(fw@, b)] result@.contains(u) && within(fw@, b) ==> within(u@, b),
+{ unimplemented!() }
 // free_words: impl Index<usize> for FreeWord
 impl IndexSpecImpl<usize> for FreeWord {
     open spec fn index_req(&self, index: &usize) -> bool { *index < self@.len() }
@@ -243,7 +258,7 @@ impl CosetTable {
         ensures final(self).wf(), final(self).raw(d as int, -(g as int)) == c, (c != d || g != 0) ==> final(self).raw(c as int, g as int) == d,
             // frame: nothing else changes; rows created on the way are empty
             final(self).nr_gens == old(self).nr_gens, final(self).part == old(self).part,
-            final(self).table@.len() >= old(self).table@.len(),
+            final(self).table@.len() >= old(self).table@.len(), c < final(self).table@.len(), d < final(self).table@.len(),
             final(self).table@.len() == old(self).table@.len() || final(self).table@.len() == c + 1 || final(self).table@.len() == d + 1,
             forall|c2: int, g2: int| 0 <= c2 < final(self).table@.len() && old(self).col_ok(g2) && !(c2 == c && g2 == g) && !(c2 == d && g2 == -(g as int))
                 ==> #[trigger] final(self).raw(c2, g2) == (if c2 < old(self).table@.len() { old(self).raw(c2, g2) } else { -1 }),
@@ -531,6 +546,7 @@ pub open spec fn rows_ok(t: &CosetTable) -> bool {
     &&& forall|c: int, g: int| 0 <= c < t.table@.len() && t.col_ok(g) ==> -1 <= #[trigger] t.raw(c, g) < t.table@.len()
     &&& forall|x: int| 0 <= x < t.table@.len() ==> 0 <= #[trigger] t.part.rep(x) < t.table@.len()
     &&& forall|x: int| #[trigger] t.part.rep(t.part.rep(x)) == t.part.rep(x)
+    &&& forall|x: int| x >= t.table@.len() ==> #[trigger] t.part.rep(x) == x
 }
 
 proof fn lemma_act_in_range(t: &CosetTable, c: int, g: int)
@@ -617,6 +633,12 @@ impl CosetTable {
                         assert(r0.rep(r0.rep(a as int)) == r0.rep(a as int));
                         assert(r0.rep(r0.rep(b as int)) == r0.rep(b as int));
                     }
+                    assert forall|x: int| x >= self.table@.len() implies #[trigger] self.part.rep(x) == x by {
+                        assert(rb(x) == (if ra(x) == ra(a as int) || ra(x) == ra(b as int) { rb(a as int) } else { ra(x) }));
+                        assert(r0.rep(x) == x);
+                        assert(0 <= r0.rep(a as int) < self.table@.len());
+                        assert(0 <= r0.rep(b as int) < self.table@.len());
+                    }
                     assert(rows_ok(self));
                 }
             }
@@ -679,7 +701,7 @@ pub open spec fn compacted(t: &CosetTable, r: &CosetTable, nw: Seq<int>) -> bool
     &&& 1 <= r.table@.len() <= t.table@.len()
     &&& forall|x: int| #[trigger] r.part.rep(x) == x
     &&& nw.len() == t.table@.len()
-    &&& forall|c: int| canonical(t, c) ==> 0 <= #[trigger] nw[c]
+    &&& forall|c: int| canonical(t, c) ==> 0 <= #[trigger] nw[c] < t.table@.len()
     &&& forall|c1: int, c2: int| canonical(t, c1) && canonical(t, c2) && c1 != c2 ==> #[trigger] nw[c1] != #[trigger] nw[c2]
     &&& nw[t.part.rep(0)] == 0
     &&& forall|k: int, g: int| canonical(t, k) && t.gen_ok(g) ==>
@@ -841,7 +863,7 @@ impl CosetTable {
             assert forall|c1: int, c2: int| canonical(self, c1) && canonical(self, c2) && c1 != c2 implies #[trigger] nw[c1] != #[trigger] nw[c2] by {
                 assert(old_to_new@[self.part.rep(c1)] != unset); assert(old_to_new@[self.part.rep(c2)] != unset);
             }
-            assert forall|c: int| canonical(self, c) implies 0 <= #[trigger] nw[c] by { }
+            assert forall|c: int| canonical(self, c) implies 0 <= #[trigger] nw[c] < self.table@.len() by { assert(old_to_new@[self.part.rep(c)] != unset); }
             assert(compacted(self, &result, nw));
         }
         result
@@ -849,7 +871,387 @@ impl CosetTable {
     //@ end
 }
 
+// =====================================================================================================
+// coset_table
+// =====================================================================================================
+// R5: std iterator / collection expressions vstd does not model, by their std semantics (assumed)
+#[verifier::external_body]
+fn __set_extend(s: &mut BTreeSet<FreeWord>, o: BTreeSet<FreeWord>)
+    ensures final(s)@ == old(s)@.union(o@)
+{ s.extend(o) }
+#[verifier::external_body]
+fn __set_new() -> (s: BTreeSet<FreeWord>)
+    ensures s@ == Set::<FreeWord>::empty()
+{ BTreeSet::new() }
+pub open spec fn listed(v: Seq<&FreeWord>, u: FreeWord) -> bool { exists|j: int| 0 <= j < v.len() && *#[trigger] v[j] == u }
+pub open spec fn is_sub(subs: Seq<FreeWord>, u: FreeWord) -> bool { exists|m: int| 0 <= m < subs.len() && #[trigger] subs[m] == u }
+// `for w in &rels`: every member, and only members
+#[verifier::external_body]
+fn __set_items<'a>(s: &'a BTreeSet<FreeWord>) -> (v: Vec<&'a FreeWord>)
+    ensures forall|j: int| 0 <= j < v@.len() ==> s@.contains(*#[trigger] v@[j]),
+        forall|u: FreeWord| #[trigger] s@.contains(u) ==> listed(v@, u),
+{ s.iter().collect() }
+// `rels.iter().chain(if i == 0 { subgroup_gens.iter() } else { [].iter() })`: the members of rels, followed for i == 0 by the subgroup generators
+#[verifier::external_body]
+fn __words_at<'a>(s: &'a BTreeSet<FreeWord>, subs: &'a Vec<FreeWord>, i: usize) -> (v: Vec<&'a FreeWord>)
+    ensures forall|j: int| 0 <= j < v@.len() ==> s@.contains(*#[trigger] v@[j]) || (i == 0 && is_sub(subs@, *v@[j])),
+        forall|u: FreeWord| #[trigger] s@.contains(u) ==> listed(v@, u),
+        i == 0 ==> forall|m: int| 0 <= m < subs@.len() ==> listed(v@, #[trigger] subs@[m]),
+{ s.iter().chain(if i == 0 { subs.iter() } else { [].iter() }).collect() }
+// `deduced.extend(opt)`
+#[verifier::external_body]
+fn __extend_opt(v: &mut Vec<(usize, isize)>, o: Option<(usize, isize)>)
+    ensures final(v)@ == (match o { Some(x) => old(v)@.push(x), None => old(v)@ })
+{ v.extend(o) }
+// R19: the documented abort `assert!(n < 100_000, "Reached coset table limit ...")`: the call does not return when the limit is hit (partial correctness)
+#[verifier::external_body]
+fn __limit_guard(b: bool)
+    ensures b
+{ assert!(b, "Reached coset table limit of 100_000") }
+
+pub open spec fn all_within(ws: Seq<FreeWord>, b: int) -> bool { forall|m: int| 0 <= m < ws.len() ==> within((#[trigger] ws[m])@, b) }
+
+//@ begin src/fpgroups/cosets.rs :: - :: fn expanded_relator_set
+//@ rw R16 /-> BTreeSet<FreeWord>$/-> (rels: BTreeSet<FreeWord>)/
+//@ rw R5 /let mut rels = BTreeSet::new\(\);/let mut rels = __set_new();/
+//@ rw R5+R14 /^([ \t]*)rels\.extend\(relator_permutations\(&rel\)\);/\1let __p = relator_permutations(rel);\n\1__set_extend(&mut rels, __p);/
+//@ rw R17 /for rel in relators$/for rel in it: relators/
+fn expanded_relator_set(relators: &Vec<FreeWord>) -> (rels: BTreeSet<FreeWord>)
+    ensures
+        // every relator is a member, and no member uses a letter beyond those of the relators
+        forall|m: int| 0 <= m < relators@.len() ==> has_view(rels@, (#[trigger] relators@[m])@),
+        forall|u: FreeWord, b: int| #![trigger rels@.contains(u), all_within(relators@, b)] rels@.contains(u) && all_within(relators@, b) ==> within(u@, b),
+{
+    let mut rels = __set_new();
+    for rel in it: relators
+        invariant
+            it.seq().len() == relators@.len(),
+            forall|m: int| 0 <= m < relators@.len() ==> *(#[trigger] it.seq()[m]) == relators@[m],
+            forall|m: int| 0 <= m < it.index() ==> has_view(rels@, (#[trigger] relators@[m])@),
+            forall|u: FreeWord, b: int| #![trigger rels@.contains(u), all_within(relators@, b)] rels@.contains(u) && all_within(relators@, b) ==> within(u@, b),
+    {
+        let ghost r0 = rels@;
+        let ghost idx = it.index() as int;
+        let __p = relator_permutations(rel);
+        let ghost pg = __p@;
+        __set_extend(&mut rels, __p);
+        proof {
+            assert(*it.seq()[idx] == relators@[idx]);
+            assert forall|m: int| 0 <= m < idx + 1 implies has_view(rels@, (#[trigger] relators@[m])@) by {
+                if m < idx {
+                    let u = choose|u: FreeWord| #[trigger] r0.contains(u) && u@ == relators@[m]@;
+                    assert(rels@.contains(u));
+                } else {
+                    let u = choose|u: FreeWord| #[trigger] pg.contains(u) && u@ == rel@;
+                    assert(rels@.contains(u));
+                }
+            }
+            assert forall|u: FreeWord, b: int| #![trigger rels@.contains(u), all_within(relators@, b)] rels@.contains(u) && all_within(relators@, b) implies within(u@, b) by {
+                if !r0.contains(u) { assert(pg.contains(u)); assert(within(relators@[idx]@, b)); assert(within(rel@, b)); }
+            }
+        }
+    }
+    rels
+}
+//@ end
+
+// w traced from row c returns to c, wherever the whole trace is defined
+pub open spec fn closes(t: &CosetTable, w: Seq<isize>, c: int) -> bool { trace(t, c, w).is_some() ==> trace(t, c, w) == Some(c as usize) }
+// the words that must close at row i: every (expanded) relator, and for row 0 every subgroup generator
+pub open spec fn due_at(rels: Set<FreeWord>, subs: Seq<FreeWord>, i: int, u: FreeWord) -> bool { rels.contains(u) || (i == 0 && is_sub(subs, u)) }
+pub open spec fn row_done(t: &CosetTable, rels: Set<FreeWord>, subs: Seq<FreeWord>, i: int) -> bool {
+    forall|u: FreeWord| #[trigger] due_at(rels, subs, i, u) ==> closes(t, u@, t.part.rep(i))
+}
+// the first `upto` rows have been checked: everything due closes at the representative of the row
+pub open spec fn pass_done(t: &CosetTable, rels: Set<FreeWord>, subs: Seq<FreeWord>, upto: int) -> bool {
+    forall|i: int, u: FreeWord| 0 <= i < upto && #[trigger] due_at(rels, subs, i, u) ==> closes(t, u@, t.part.rep(i))
+}
+
+// tracing through the compacted table is tracing through the original one, renumbered
+proof fn lemma_transport(t: &CosetTable, r: &CosetTable, nw: Seq<int>, k: int, w: Seq<isize>)
+    requires rows_ok(t), compacted(t, r, nw), canonical(t, k), cols_ok(t, w), reduced(w)
+    ensures trace(r, nw[k], w) == (match trace(t, k, w) { Some(x) => Some(nw[x as int] as usize), None => None }),
+        trace(t, k, w).is_some() ==> canonical(t, trace(t, k, w).unwrap() as int)
+    decreases w.len()
+{
+    if w.len() > 0 {
+        let w0 = w.drop_last();
+        let g = w.last();
+        assert(cols_ok(t, w0)) by { assert forall|j: int| 0 <= j < w0.len() implies t.col_ok(#[trigger] w0[j] as int) by { assert(w0[j] == w[j]); } }
+        assert(reduced(w0)) by {
+            assert forall|j: int| 0 <= j < w0.len() implies #[trigger] w0[j] != 0 && w0[j] > isize::MIN by { assert(w0[j] == w[j]); }
+            assert forall|j: int| 0 <= j < w0.len() - 1 implies !neg_eq(#[trigger] w0[j + 1], w0[j]) by { assert(w0[j + 1] == w[j + 1]); assert(w0[j] == w[j]); }
+        }
+        lemma_transport(t, r, nw, k, w0);
+        assert(w[w.len() - 1] != 0 && t.col_ok(w[w.len() - 1] as int));
+        assert(t.gen_ok(g as int));
+        if trace(t, k, w0).is_some() {
+            let x0 = trace(t, k, w0).unwrap() as int;
+            assert(canonical(t, x0));
+            assert(r.act(nw[x0], g as int) == (match t.act(x0, g as int) { Some(c) => Some(nw[c as int] as usize), None => None }));
+            assert(0 <= nw[x0] < t.table@.len());
+            assert(0 <= nw[k] < t.table@.len());
+            if t.act(x0, g as int).is_some() { lemma_act_in_range(t, x0, g as int); }
+        }
+    }
+}
+
+//@ begin src/fpgroups/cosets.rs :: - :: fn coset_table
+//@ rw R16 /^\) -> CosetTable$/) -> (result: CosetTable)/
+//@ rw R19 /for i in 0\.\.$/for i in 0..usize::MAX/
+//@ rw R19 /assert!\(n < 100_000, "Reached coset table limit of 100_000"\);/__limit_guard(n < 100_000);/
+//@ rw R17 /for g in table\.all_gens\(\)$/for g in it: table.all_gens()/
+//@ rw R5+R17 /for w in &rels$/for w in it: __set_items(&rels)/
+//@ rw R17 /for w in subgroup_gens$/for w in it: subgroup_gens/
+//@ rw R5+R14 /^([ \t]*)deduced\.extend\(scan_and_connect\(&mut table, w, c\)\);/\1let __d = scan_and_connect(&mut table, w, c);\n\1__extend_opt(&mut deduced, __d);/
+//@ rw R17 /for i in 0\.\.table\.len\(\)$/for i in iti: 0..table.len()/
+//@ rw R5+R17 /for w in rels\.iter\(\)\.chain\(if i == 0 \{ subgroup_gens\.iter\(\) \} else \{ \[\]\.iter\(\) \}\)$/for w in it: __words_at(&rels, subgroup_gens, i)/
+//@ rw R14 /^([ \t]*)table\.compact\(\)$/\1let __r = table.compact();\n\1__r/
+#[verifier::spinoff_prover]
+#[verifier::exec_allows_no_decreases_clause]
+pub fn coset_table(
+    nr_gens: usize, relators: &Vec<FreeWord>, subgroup_gens: &Vec<FreeWord>
+) -> (result: CosetTable)
+    requires nr_gens < isize::MAX / 2,
+        // relators and subgroup generators are words in the nr_gens generators and their inverses (anything else indexes outside a table row)
+        all_within(relators@, nr_gens as int), all_within(subgroup_gens@, nr_gens as int),
+    ensures result.wf(), result.nr_gens == nr_gens, result.table@.len() >= 1,
+        forall|x: int| #[trigger] result.part.rep(x) == x,
+        // C11: "every relator traced from every row returns to that row" (wherever the trace is defined) ...
+        forall|m: int, r: int| 0 <= m < relators@.len() && 0 <= r < result.table@.len() ==> #[trigger] closes(&result, relators@[m]@, r),
+        // ... "and every generator of H traced from row 0 returns to row 0"
+        forall|m: int| 0 <= m < subgroup_gens@.len() ==> closes(&result, (#[trigger] subgroup_gens@[m])@, 0),
+{
+    let rels = expanded_relator_set(relators);
+    let mut table = CosetTable::new(nr_gens);
+    proof {
+        assert(all_within(relators@, nr_gens as int));
+        assert forall|u: FreeWord| #[trigger] rels@.contains(u) implies within(u@, nr_gens as int) by { }
+        assert(rows_ok(&table));
+    }
+
+    for i in 0..usize::MAX
+        invariant rows_ok(&table), table.nr_gens == nr_gens,
+            all_within(subgroup_gens@, nr_gens as int),
+            forall|u: FreeWord| #[trigger] rels@.contains(u) ==> within(u@, nr_gens as int),
+    {
+        if i >= table.len() {
+            break;
+        }
+
+        for g in it: table.all_gens()
+            invariant rows_ok(&table), table.nr_gens == nr_gens, i < table.table@.len(),
+                all_within(subgroup_gens@, nr_gens as int),
+                forall|u: FreeWord| #[trigger] rels@.contains(u) ==> within(u@, nr_gens as int),
+                forall|k: int| 0 <= k < it.seq().len() ==> table.gen_ok(#[trigger] it.seq()[k] as int),
+        {
+            proof { assert(table.gen_ok(it.seq()[it.index() as int] as int)); }
+            if i != table.canon(i) {
+                break;
+            }
+            if table.get(i, g).is_none() {
+                let n = table.len();
+                __limit_guard(n < 100_000);
+
+                let ghost t0 = table;
+                table.join(i, n, g);
+                proof {
+                    assert(table.table@.len() == n + 1);
+                    assert forall|c2: int, g2: int| 0 <= c2 < table.table@.len() && table.col_ok(g2) implies -1 <= #[trigger] table.raw(c2, g2) < table.table@.len() by {
+                        if !(c2 == i && g2 == g) && !(c2 == n && g2 == -(g as int)) {
+                            assert(table.raw(c2, g2) == (if c2 < t0.table@.len() { t0.raw(c2, g2) } else { -1 }));
+                        }
+                    }
+                    assert forall|x: int| 0 <= x < table.table@.len() implies 0 <= #[trigger] table.part.rep(x) < table.table@.len() by {
+                        if x == n { assert(t0.part.rep(x) == x); } else { assert(0 <= t0.part.rep(x) < t0.table@.len()); }
+                    }
+                    assert(rows_ok(&table));
+                }
+
+                // scan the relators through the new edge, and through every
+                // edge deduced while doing so
+                let mut deduced = vec![(i, g)];
+                while let Some((r, h)) = deduced.pop()
+                    invariant rows_ok(&table), table.nr_gens == nr_gens, i < table.table@.len(),
+                        all_within(subgroup_gens@, nr_gens as int),
+                        forall|u: FreeWord| #[trigger] rels@.contains(u) ==> within(u@, nr_gens as int),
+                        forall|k: int| 0 <= k < deduced@.len() ==> (#[trigger] deduced@[k]).0 < table.table@.len(),
+                {
+                    for w in it: __set_items(&rels)
+                        invariant rows_ok(&table), table.nr_gens == nr_gens, i < table.table@.len(), r < table.table@.len(),
+                            forall|u: FreeWord| #[trigger] rels@.contains(u) ==> within(u@, nr_gens as int),
+                            forall|j: int| 0 <= j < it.seq().len() ==> rels@.contains(*#[trigger] it.seq()[j]),
+                            forall|k: int| 0 <= k < deduced@.len() ==> (#[trigger] deduced@[k]).0 < table.table@.len(),
+                    {
+                        proof { assert(rels@.contains(*it.seq()[it.index() as int])); assert(within(w@, nr_gens as int)); }
+                        if w.len() > 0 && w[0] == h {
+                            proof { assert forall|j: int| 0 <= j < w@.len() implies table.col_ok(#[trigger] w@[j] as int) by { assert(-(nr_gens as int) <= w@[j] <= nr_gens); } }
+                            let c = table.canon(r);
+                            let ghost d0 = deduced@;
+                            let __d = scan_and_connect(&mut table, w, c);
+                            __extend_opt(&mut deduced, __d);
+                            proof { assert forall|k: int| 0 <= k < deduced@.len() implies (#[trigger] deduced@[k]).0 < table.table@.len() by { if k < d0.len() { assert(deduced@[k] == d0[k]); } } }
+                        }
+                    }
+                    for w in it: subgroup_gens
+                        invariant rows_ok(&table), table.nr_gens == nr_gens, i < table.table@.len(),
+                            all_within(subgroup_gens@, nr_gens as int),
+                            it.seq().len() == subgroup_gens@.len(),
+                            forall|m: int| 0 <= m < subgroup_gens@.len() ==> *(#[trigger] it.seq()[m]) == subgroup_gens@[m],
+                            forall|k: int| 0 <= k < deduced@.len() ==> (#[trigger] deduced@[k]).0 < table.table@.len(),
+                    {
+                        proof {
+                            let m = it.index() as int;
+                            assert(*it.seq()[m] == subgroup_gens@[m]);
+                            assert(within(subgroup_gens@[m]@, nr_gens as int));
+                            assert forall|j: int| 0 <= j < w@.len() implies table.col_ok(#[trigger] w@[j] as int) by { assert(-(nr_gens as int) <= w@[j] <= nr_gens); }
+                        }
+                        let c = table.canon(0);
+                        let ghost d0 = deduced@;
+                        let __d = scan_and_connect(&mut table, w, c);
+                        __extend_opt(&mut deduced, __d);
+                        proof { assert forall|k: int| 0 <= k < deduced@.len() implies (#[trigger] deduced@[k]).0 < table.table@.len() by { if k < d0.len() { assert(deduced@[k] == d0[k]); } } }
+                    }
+                }
+            }
+        }
+    }
+
+    // All rows are complete now, but deductions made while scanning were never
+    // scanned themselves, so a relator may still fail to close (a coincidence
+    // that was not discovered).  Check every relator at every live row and
+    // merge until the table is consistent.
+    loop
+        invariant_except_break rows_ok(&table), table.nr_gens == nr_gens,
+            all_within(subgroup_gens@, nr_gens as int),
+            forall|u: FreeWord| #[trigger] rels@.contains(u) ==> within(u@, nr_gens as int),
+        ensures rows_ok(&table), table.nr_gens == nr_gens,
+            // the last pass found every due word closing at every row, and changed nothing
+            pass_done(&table, rels@, subgroup_gens@, table.table@.len() as int),
+    {
+        let mut changed = false;
+
+        for i in iti: 0..table.len()
+            invariant rows_ok(&table), table.nr_gens == nr_gens,
+                iti.seq().len() == table.table@.len(),
+                all_within(subgroup_gens@, nr_gens as int),
+                forall|u: FreeWord| #[trigger] rels@.contains(u) ==> within(u@, nr_gens as int),
+                !changed ==> pass_done(&table, rels@, subgroup_gens@, i as int),
+        {
+            for w in it: __words_at(&rels, subgroup_gens, i)
+                invariant rows_ok(&table), table.nr_gens == nr_gens, i < table.table@.len(), iti.seq().len() == table.table@.len(),
+                    all_within(subgroup_gens@, nr_gens as int),
+                    forall|u: FreeWord| #[trigger] rels@.contains(u) ==> within(u@, nr_gens as int),
+                    forall|j: int| 0 <= j < it.seq().len() ==> rels@.contains(*#[trigger] it.seq()[j]) || (i == 0 && is_sub(subgroup_gens@, *it.seq()[j])),
+                    forall|u: FreeWord| #[trigger] rels@.contains(u) ==> listed(it.seq(), u),
+                    i == 0 ==> forall|m: int| 0 <= m < subgroup_gens@.len() ==> listed(it.seq(), #[trigger] subgroup_gens@[m]),
+                    !changed ==> pass_done(&table, rels@, subgroup_gens@, i as int),
+                    !changed ==> forall|j: int| 0 <= j < it.index() ==> closes(&table, (*#[trigger] it.seq()[j])@, table.part.rep(i as int)),
+                    !changed && it.index() == it.seq().len() ==> row_done(&table, rels@, subgroup_gens@, i as int),
+            {
+                let ghost idx = it.index() as int;
+                proof {
+                    assert(rels@.contains(*it.seq()[idx]) || (i == 0 && is_sub(subgroup_gens@, *it.seq()[idx])));
+                    if !rels@.contains(*it.seq()[idx]) {
+                        let m = choose|m: int| 0 <= m < subgroup_gens@.len() && #[trigger] subgroup_gens@[m] == *it.seq()[idx];
+                        assert(within(subgroup_gens@[m]@, nr_gens as int));
+                    }
+                    assert(within(w@, nr_gens as int));
+                    assert forall|j: int| 0 <= j < w@.len() implies table.col_ok(#[trigger] w@[j] as int) by { assert(-(nr_gens as int) <= w@[j] <= nr_gens); }
+                }
+                let c = table.canon(i);
+                let (head, tail, gap, _) = scan_both_ways(&table, w, c);
+                if gap == 0 && head != tail {
+                    table.merge(head, tail);
+                    changed = true;
+                }
+                proof {
+                    assert(!changed && idx + 1 == it.seq().len() ==> row_done(&table, rels@, subgroup_gens@, i as int)) by {
+                        assert forall|u: FreeWord| !changed && idx + 1 == it.seq().len() && #[trigger] due_at(rels@, subgroup_gens@, i as int, u) implies closes(&table, u@, table.part.rep(i as int)) by {
+                            if rels@.contains(u) { assert(listed(it.seq(), u)); }
+                            else { let m = choose|m: int| 0 <= m < subgroup_gens@.len() && #[trigger] subgroup_gens@[m] == u; assert(listed(it.seq(), subgroup_gens@[m])); }
+                            let j = choose|j: int| 0 <= j < it.seq().len() && *#[trigger] it.seq()[j] == u;
+                            assert(closes(&table, (*it.seq()[j])@, table.part.rep(i as int)));
+                        }
+                    }
+                }
+            }
+            proof {
+                if !changed {
+                    assert(row_done(&table, rels@, subgroup_gens@, i as int));
+                    assert forall|i2: int, u: FreeWord| 0 <= i2 < i + 1 && #[trigger] due_at(rels@, subgroup_gens@, i2, u) implies closes(&table, u@, table.part.rep(i2)) by { }
+                }
+            }
+        }
+
+        if !changed {
+            break;
+        }
+    }
+
+    let __r = table.compact();
+    proof {
+        let nw = choose|nw: Seq<int>| compacted(&table, &__r, nw);
+        assert forall|m: int, r: int| 0 <= m < relators@.len() && 0 <= r < __r.table@.len() implies #[trigger] closes(&__r, relators@[m]@, r) by {
+            assert(is_row(&__r, r));
+            let k = choose|k: int| canonical(&table, k) && #[trigger] nw[k] == r;
+            assert(has_view(rels@, relators@[m]@));
+            let u = choose|u: FreeWord| #[trigger] rels@.contains(u) && u@ == relators@[m]@;
+            assert(due_at(rels@, subgroup_gens@, k, u));
+            assert(closes(&table, u@, table.part.rep(k)));
+            u.lemma_reduced();
+            assert(within(u@, nr_gens as int));
+            assert forall|j: int| 0 <= j < u@.len() implies table.col_ok(#[trigger] u@[j] as int) by { assert(-(nr_gens as int) <= u@[j] <= nr_gens); }
+            lemma_transport(&table, &__r, nw, k, u@);
+            if trace(&table, k, u@).is_some() {
+                let x = trace(&table, k, u@).unwrap() as int;
+                assert(x == k);
+            }
+        }
+        assert forall|m: int| 0 <= m < subgroup_gens@.len() implies closes(&__r, (#[trigger] subgroup_gens@[m])@, 0) by {
+            let k = table.part.rep(0);
+            assert(0 <= k < table.table@.len());
+            assert(table.part.rep(table.part.rep(0)) == table.part.rep(0));
+            assert(canonical(&table, k));
+            let u = subgroup_gens@[m];
+            assert(is_sub(subgroup_gens@, u));
+            assert(due_at(rels@, subgroup_gens@, 0, u));
+            assert(closes(&table, u@, table.part.rep(0)));
+            u.lemma_reduced();
+            assert(within(u@, nr_gens as int));
+            assert forall|j: int| 0 <= j < u@.len() implies table.col_ok(#[trigger] u@[j] as int) by { assert(-(nr_gens as int) <= u@[j] <= nr_gens); }
+            lemma_transport(&table, &__r, nw, k, u@);
+        }
+    }
+    __r
+}
+//@ end
+
 // vacuity guards
+proof fn canary_rows_ok_is_satisfiable(t: &CosetTable)
+    requires rows_ok(t), t.nr_gens == 1, t.table@.len() == 2, t.raw(0, 1) == 1, t.raw(1, -1) == 0
+    ensures false
+{}
+
+proof fn canary_compacted_is_satisfiable(t: &CosetTable, r: &CosetTable, nw: Seq<int>)
+    requires rows_ok(t), compacted(t, r, nw), t.table@.len() == 3, r.table@.len() == 2
+    ensures false
+{}
+
+fn canary_coset_table_contract(relators: &Vec<FreeWord>, subs: &Vec<FreeWord>)
+    requires all_within(relators@, 2), all_within(subs@, 2), relators@.len() == 2, subs@.len() == 1
+    ensures false
+{
+    let t = coset_table(2, relators, subs);
+}
+
+fn canary_merge_contract(t: &mut CosetTable)
+    requires rows_ok(old(t)), old(t).table@.len() == 3
+    ensures false
+{
+    t.merge(1, 2);
+}
+
 proof fn canary_valid_is_satisfiable(t: &CosetTable)
     requires valid(t), t.nr_gens == 1, t.table@.len() == 2
     ensures false
